@@ -62,7 +62,7 @@ impl Prop for C06 {
     fn phases(&self, tier: Tier) -> Vec<Phase> {
         let mut v = vec![
             Phase::new("primitives", 60000).min_cases(tier.pick(2000, 8000)).timeouts(60, tier.pick(300, 1500)),
-            Phase::new("histories", tier.pick(400, 8000)).min_cases(tier.pick(100, 2000)).timeouts(120, tier.pick(300, 1500)),
+            Phase::new("histories", tier.pick(400, 20000)).min_cases(tier.pick(100, 4000)).timeouts(120, tier.pick(300, 1500)),
         ];
         if tier == Tier::Thorough {
             v.push(Phase::new("primitives-asan", 60000).build(Build::Asan).min_cases(2000).timeouts(120, 1500));
